@@ -15,6 +15,7 @@ from sa.model import AnalysisError
 from sa.ctx import Ctx
 from sa.report import Report
 from sa import pat
+from sa.util import fact_in
 from rules.C12 import C12
 
 
@@ -47,7 +48,7 @@ class C13:
         for r in consts:
             facts = ctx.facts_at(f, r)
             got.add((r.value.value, tuple(sorted(facts))))
-        both = any(v is True and ("%s is None" % a, True) in fs and ("%s is None" % b, True) in fs for v, fs in got)
+        both = any(v is True and fact_in(fs, "%s is None" % a, True) and fact_in(fs, "%s is None" % b, True) for v, fs in got)
         one = any(v is False and any("is None" in t for t, p in fs) for v, fs in got)
         rep.check("C13.Z3", "paths_match|none-arms", f, both and one, "None/None -> True, one None -> False", "the None arms of paths_match changed (%s)" % sorted(got))
 
